@@ -3,7 +3,7 @@ import json
 from vlib import core
 
 META = {
-    "disabled": True,
+    "disabled": False,
     "level": "model_checking",
     "level_text": "Cli.tla states the obligations on a run of the tool (failure class => exit != 0; a printed failure verdict => exit != 0; exit 0 of a "
                   "producer => every wanted file present with identical token and accepted by the library; exit 0 of list/info => printed facts = library view) "
@@ -66,7 +66,7 @@ def run(ctx, cases_override=None):
                 views_ok += 1
             if len(samples) < 4 and (r["cmd"] in ("validate", "extract", "convert")) and r["input"] in ("valid", "flagged", "trunc_mid") and r["fam"] not in [s["fam"] for s in samples]:
                 samples.append({k: r[k] for k in ("case", "fam", "cmd", "kind", "input", "lib", "libval", "exit", "says_fail", "outs", "view", "libview")})
-    if runs == 0 or zero == 0 or nonzero == 0 or producers_ok == 0 or views_ok == 0:
+    if not cases_override and (runs == 0 or zero == 0 or nonzero == 0 or producers_ok == 0 or views_ok == 0):
         raise core.ToolError(f"stage C: vacuous replay (runs={runs}, exit0={zero}, nonzero={nonzero}, producers={producers_ok}, views={views_ok})")
     cov = {
         "traces_validated_against_impl": res["traces"],
